@@ -395,7 +395,8 @@ theorem generated_elect_sessions_eq_model (this peer : String) (cs : List Sessio
   · simp [absCand, Function.comp_def]
   · rw [dir_abs, nonce_abs, tie_abs]
     simp only [List.map_map, Function.comp_def, absCand]
-    rfl
+    -- per value of the comparison both sides reduce (robust to a reordering of the `Ordering` arms)
+    cases compare peer this <;> rfl
 
 theorem generated_elect_sessions_covers_model (this peer : String) (cs : List Election.Cand) :
     elect_sessions this peer (cs.map concCand) = Election.elect (compare peer this) cs := by
